@@ -78,7 +78,13 @@ impl StarkConfig {
             .validate(log_eval_domain_size, self.n_verifier_friendly_commitment_layers)?;
 
         // Validate Fri config.
-        self.fri.validate(self.log_n_cosets, self.n_verifier_friendly_commitment_layers)?;
+        let log_expected_input_degree =
+            self.fri.validate(self.log_n_cosets, self.n_verifier_friendly_commitment_layers)?;
+        // The degree bound FRI tests must be the trace length.
+        ensure!(
+            log_expected_input_degree == self.log_trace_domain_size,
+            Error::LogTraceDomainSizeMismatch
+        );
         Ok(())
     }
 }
@@ -104,6 +110,8 @@ pub enum Error {
     InsufficientSecurity,
     #[error("blow-up exponent or query count out of bounds")]
     OutOfBounds,
+    #[error("FRI degree bound differs from the trace domain size")]
+    LogTraceDomainSizeMismatch,
 }
 
 #[cfg(not(feature = "std"))]
@@ -126,4 +134,6 @@ pub enum Error {
     InsufficientSecurity,
     #[error("blow-up exponent or query count out of bounds")]
     OutOfBounds,
+    #[error("FRI degree bound differs from the trace domain size")]
+    LogTraceDomainSizeMismatch,
 }
